@@ -1002,6 +1002,13 @@ class CollapseCollector(WrappingCollector):
             return ilen(self.all_ids())
 
     def collect_matches(self):
+        # (The work is done document by document in collect(), so that a
+        # collector wrapped around this one - the filter - which hands the
+        # documents over itself gets them collapsed too)
+        for sub_docnum in self.child.matches():
+            self.collect(sub_docnum)
+
+    def collect(self, sub_docnum):
         lists = self.lists
         limit = self.limit
         keyer = self.keyer
@@ -1021,52 +1028,51 @@ class CollapseCollector(WrappingCollector):
             reverse = reverse or getattr(c, "reverse", False)
             c = getattr(c, "child", None)
 
-        for sub_docnum in child.matches():
-            # Collapsing category key
-            ckey = keyer.key_to_name(keyer.key_for(matcher, sub_docnum))
-            if ckey is None or ckey == "" or ckey == b"":
-                # If the document isn't in a collapsing category, just add it
-                child.collect(sub_docnum)
-            else:
-                global_docnum = offset + sub_docnum
+        # Collapsing category key
+        ckey = keyer.key_to_name(keyer.key_for(matcher, sub_docnum))
+        if ckey is None or ckey == "" or ckey == b"":
+            # If the document isn't in a collapsing category, just add it
+            return child.collect(sub_docnum)
 
-                if orderer:
-                    # If user specified a collapse order, use it
-                    sortkey = orderer.key_for(child.matcher, sub_docnum)
-                else:
-                    # Otherwise, use the results order
-                    sortkey = child.sort_key(sub_docnum)
+        global_docnum = offset + sub_docnum
 
-                # Current list of best docs for this collapse key
-                best = lists[ckey]
-                add = False
-                if len(best) < limit:
-                    # If the heap is not full yet, just add this document
-                    add = True
-                elif reverse:
-                    if sortkey >= best[0][0]:
-                        child.remove(best.pop(0)[1])
-                        collapsed_counts[ckey] += 1
-                        self.collapsed_total += 1
-                        add = True
-                elif sortkey < best[-1][0]:
-                    # If the heap is full but this document has a lower sort
-                    # key than the highest key currently on the heap, replace
-                    # the "least-best" document
-                    # Tell the child collector to remove the document
-                    child.remove(best.pop()[1])
-                    # The replaced document was filtered out too
-                    collapsed_counts[ckey] += 1
-                    self.collapsed_total += 1
-                    add = True
+        if orderer:
+            # If user specified a collapse order, use it
+            sortkey = orderer.key_for(child.matcher, sub_docnum)
+        else:
+            # Otherwise, use the results order
+            sortkey = child.sort_key(sub_docnum)
 
-                if add:
-                    insort(best, (sortkey, global_docnum))
-                    child.collect(sub_docnum)
-                else:
-                    # Remember that a document was filtered
-                    collapsed_counts[ckey] += 1
-                    self.collapsed_total += 1
+        # Current list of best docs for this collapse key
+        best = lists[ckey]
+        add = False
+        if len(best) < limit:
+            # If the heap is not full yet, just add this document
+            add = True
+        elif reverse:
+            if sortkey >= best[0][0]:
+                child.remove(best.pop(0)[1])
+                collapsed_counts[ckey] += 1
+                self.collapsed_total += 1
+                add = True
+        elif sortkey < best[-1][0]:
+            # If the heap is full but this document has a lower sort
+            # key than the highest key currently on the heap, replace
+            # the "least-best" document
+            # Tell the child collector to remove the document
+            child.remove(best.pop()[1])
+            # The replaced document was filtered out too
+            collapsed_counts[ckey] += 1
+            self.collapsed_total += 1
+            add = True
+
+        if add:
+            insort(best, (sortkey, global_docnum))
+            return child.collect(sub_docnum)
+        else:
+            # Remember that a document was filtered
+            collapsed_counts[ckey] += 1
+            self.collapsed_total += 1
 
     def results(self):
         r = self.child.results()
